@@ -630,9 +630,11 @@ func (w *world) exec(c *tcase) (obs observation) {
 	w.d.mu.Lock()
 	w.d.cur, w.d.record = c, nil
 	w.d.mu.Unlock()
-	w.rec.mu.Lock()
-	w.rec.cur, w.rec.calls, w.rec.statCalls = c, nil, 0
-	w.rec.mu.Unlock()
+	// a fresh recorder and RPC client per attempt (round 8b): the handler of an earlier, abandoned attempt of the same case
+	// (a slow-daemon case whose connection was cut and that is retried) may still be running and must not record its RPCs
+	// into this attempt's list (observed once under load: PinPath listed twice => false hijack_success_op)
+	w.rec = &recorder{cur: c}
+	w.cl = newRPC(w.rec)
 
 	p, addr, err := w.startProxy(c)
 	if err != nil {
